@@ -145,7 +145,7 @@ func childTSync(args []string) {
 			ths[i].ProbeBefore = probeGetppid()
 			ths[i].NNPBefore = selfNNP()
 			if sc.Divergent && i == 0 {
-				seccomp.LoadFilter(seccomp.Filter{NoNewPrivs: true, Flag: 0, Policy: *kindPolicy("B")})
+				safeLoad(seccomp.Filter{NoNewPrivs: true, Flag: 0, Policy: *kindPolicy("B")})
 			}
 			started.Done()
 			switch ph {
@@ -232,7 +232,7 @@ func childTSync(args []string) {
 	load := func() {
 		rep.LoaderTid = gettid()
 		if sc.PriorSync {
-			if err := seccomp.LoadFilter(seccomp.Filter{NoNewPrivs: sc.NNP, Flag: seccomp.FilterFlagTSync, Policy: *kindPolicy("B")}); err != nil {
+			if err := safeLoad(seccomp.Filter{NoNewPrivs: sc.NNP, Flag: seccomp.FilterFlagTSync, Policy: *kindPolicy("B")}); err != nil {
 				s := "prior thread-sync load: " + err.Error()
 				rep.Err = &s
 			}
@@ -241,13 +241,13 @@ func childTSync(args []string) {
 			seamMu.Unlock()
 		}
 		if sc.Preload {
-			if err := seccomp.LoadFilter(seccomp.Filter{NoNewPrivs: sc.NNP, Flag: 0, Policy: *kindPolicy("A")}); err != nil {
+			if err := safeLoad(seccomp.Filter{NoNewPrivs: sc.NNP, Flag: 0, Policy: *kindPolicy("A")}); err != nil {
 				s := "preload: " + err.Error()
 				rep.Err = &s
 			}
 			rep.Seam = nil
 		}
-		err := seccomp.LoadFilter(seccomp.Filter{NoNewPrivs: sc.NNP, Flag: symbolicFlags(sc.Flags), Policy: *kindPolicy("A")})
+		err := safeLoad(seccomp.Filter{NoNewPrivs: sc.NNP, Flag: symbolicFlags(sc.Flags), Policy: *kindPolicy("A")})
 		atomic.StoreInt32(&loaded, 1)
 		if err != nil {
 			s := err.Error()
@@ -430,7 +430,7 @@ func childNNP(args []string) {
 			pre[t.Tid] = true
 		}
 		rep.PrctlTid = gettid()
-		err := seccomp.LoadFilter(seccomp.Filter{NoNewPrivs: sc.NNP, Flag: seccomp.FilterFlag(sc.Flags), Policy: *kindPolicy("A")})
+		err := safeLoad(seccomp.Filter{NoNewPrivs: sc.NNP, Flag: seccomp.FilterFlag(sc.Flags), Policy: *kindPolicy("A")})
 		if err != nil {
 			s := err.Error()
 			rep.Err = &s
